@@ -968,7 +968,8 @@ func (in *Interp) inline(ft *ast.FuncType, recvFL *ast.FieldList, body *ast.Bloc
 		case cPanic:
 			out = append(out, ev{r.st, panicVal{r.vals[0]}})
 		default:
-			// a cut loop inside an inlined function: path ends
+			// a cut loop inside an inlined function: the path ends here, but its events are kept
+			in.cuts = append(in.cuts, r.st)
 		}
 	}
 	return out
